@@ -25,6 +25,7 @@ ASSUMPTIONS = [
     "EdDSA / Edwards curves excluded (quantifier)",
 ]
 TIMEOUT = {"quick": 1500, "thorough": 10 * 3600}
+OPTIMIZED_SHARDS = ("c06_0",)  # these shards also run under python -O
 HASHES = ["sha1", "sha224", "sha256", "sha384", "sha512"]
 ENCODINGS = ["string", "strings", "der", "string_canonize", "strings_canonize", "der_canonize"]
 
